@@ -24,7 +24,8 @@ def cfgLE (le : Bool) : Cfg := { cfg with littleEndian := le }
 theorem cfgLE_good (le : Bool) : (cfgLE le).Good := by
   have g := cfg_good
   exact ⟨g.afInet, g.afInet6, g.afUnix, g.sockStream, g.connNone, g.statuses, g.inodesExtend,
-    g.unixPathRest, g.inetN, g.iLaddr, g.iRaddr, g.iStatus, g.iInode, g.unixN, g.uType, g.uInode, g.ntop6⟩
+    g.unixPathRest, g.inetN, g.iLaddr, g.iRaddr, g.iStatus, g.iInode, g.unixN, g.uType, g.uInode, g.ntop6,
+    g.linkSkip, g.linkSkipNamed, g.allSkip, g.allSkipNamed, g.v6RaiseUnsupported, g.v6SkipLine⟩
 
 /-! ## Addresses -/
 
@@ -447,7 +448,7 @@ theorem C11_scan_process (le : Bool) (w : WorldE) (hw : w.view.WF) (hn : (w.proc
     ProcessLookupError as NoSuchProcess, anything else unchanged. -/
 theorem C11_scan_process_error (le : Bool) (fs : ProcFsE) (kind : String) (hk : kind ∈ kinds) (p : Nat)
     (l : ListRes) (hl : fs.procs.lookup (p + 1) = some l) (x : Exc)
-    (hx : getProcInodesE (p + 1) l = .error x) :
+    (hx : getProcInodesE (cfgLE le) (p + 1) l = .error x) :
     netConnectionsE (cfgLE le) fs kind (some (p + 1)) =
       match x with
       | .permissionError => .error .accessDenied
@@ -464,7 +465,7 @@ theorem C11_scan_process_denied (le : Bool) (fs : ProcFsE) (kind : String) (hk :
     ∧ (e = .esrch → netConnectionsE (cfgLE le) fs kind (some (p + 1)) = .error .noSuchProcess) := by
   constructor
   · intro hd
-    have hx : getProcInodesE (p + 1) (.error e) = .error .permissionError := by
+    have hx : getProcInodesE (cfgLE le) (p + 1) (.error e) = .error .permissionError := by
       cases e <;> simp [errDenied] at hd <;> rfl
     rw [C11_scan_process_error le fs kind hk p _ hl _ hx]
   · intro he; subst he
